@@ -76,6 +76,10 @@ func c39Judge(s *orcStep, res *run.Result) {
 		res.Inc("skipped_board_emptied_and_printed_without_map")
 		return
 	}
+	if s.Pre.hasGlob() {
+		res.Inc("skipped_source_has_glob_keys")
+		return
+	}
 	kind := s.Call.Kind
 	t := -1
 	var destParent []string
